@@ -35,11 +35,22 @@ pub unsafe extern "C" fn clock_gettime(clk: libc::clockid_t, ts: *mut libc::time
 pub unsafe extern "C" fn getrandom(buf: *mut libc::c_void, len: libc::size_t, _flags: libc::c_uint) -> libc::ssize_t {
     static SEED: std::sync::OnceLock<u8> = std::sync::OnceLock::new();
     let seed = *SEED.get_or_init(|| std::env::var("VERIF_HASH_SEED").ok().and_then(|s| s.parse::<u64>().ok()).unwrap_or(0) as u8);
+    let ov = HASH_SEED_OVERRIDE.load(std::sync::atomic::Ordering::Relaxed);
+    let seed = if ov == NO_OVERRIDE { seed } else { ov as u8 };
     let out = std::slice::from_raw_parts_mut(buf.cast::<u8>(), len);
     for (i, b) in out.iter_mut().enumerate() {
         *b = (i as u8).wrapping_mul(0x9d).wrapping_add(0x3c) ^ seed;
     }
     len as libc::ssize_t
+}
+
+const NO_OVERRIDE: u16 = 0xffff;
+static HASH_SEED_OVERRIDE: std::sync::atomic::AtomicU16 = std::sync::atomic::AtomicU16::new(NO_OVERRIDE);
+
+/// Threads started from now on hash with this seed instead of `VERIF_HASH_SEED` (`None` = back to it).
+/// Used to tell a hang that depends on hash-map iteration order from one that does not.
+pub fn set_hash_seed_override(seed: Option<u8>) {
+    HASH_SEED_OVERRIDE.store(seed.map_or(NO_OVERRIDE, u16::from), std::sync::atomic::Ordering::Relaxed);
 }
 
 /// Hash of a fixed value under a RandomState created in a fresh thread (self-test helper).
